@@ -107,6 +107,10 @@ def c08(env, thorough):
         ('update-aux-nonl', STD_SETUP, {}, {'op': 'update', 'user': 'b', 'pw': 'newpw'}, 'b.user', b'line1\nno newline at end'),
         ('update-admin-otherdefault', STD_SETUP, {}, {'op': 'update', 'user': 'root', 'pw': 'newpw', 'default': 2}, 'root.admin', b'aux\n'),
     ]
+    # auxiliary data around the usual buffer sizes (a record that just fits / just exceeds a 4 KiB or 64 KiB buffer)
+    sizes = [4000, 4023, 4024, 4025, 4096, 8192] + ([32768, 65535, 65536, 65537] if thorough else [])
+    for n in sizes:
+        histories.append(('update-aux-%d' % n, STD_SETUP, {}, {'op': 'update', 'user': 'b', 'pw': 'newpw'}, 'b.user', bytes((i * 31 + 7) % 251 for i in range(n))))
     for name, setup, files, step, target, aux in histories:
         base = os.path.join(env.work, 'c08', 'store')
         build_tree(env, base, setup, files)
